@@ -93,6 +93,31 @@ package transaction
 //@   ensures widen: txn.committer == old(txn.committer) && minKeyOf(memdb.ART) != "" ==> (old(txn.committer.pipelinedCommitInfo.pipelinedStart) != "" ==> txn.committer.pipelinedCommitInfo.pipelinedStart != "" &&
 //@       txn.committer.pipelinedCommitInfo.pipelinedStart <= old(txn.committer.pipelinedCommitInfo.pipelinedStart)) && txn.committer.pipelinedCommitInfo.pipelinedEnd >= old(txn.committer.pipelinedCommitInfo.pipelinedEnd)
 
+// Every Flush request of one flush carries that flush's generation: the request built for a batch names the generation
+// it was asked for, the batch handler sends a request with the action's generation to the batch's region, and when the
+// batch has to be regrouped after a region change the regrouped batches are flushed with the same generation (not zero).
+//@ func (*twoPhaseCommitter) buildPipelinedFlushRequest
+//@   prop C16
+//@   bytes: key
+//@   opaque-callee Len IsAssertExists IsAssertNotExist GetOp GetKey GetValue primary
+//@   loop 1 invariant alloc: 0 <= i && len(mutations) >= 0
+//@   ensures wire: result != nil && result.Type == tikvrpc.CmdFlush && result.Req.(*kvrpcpb.FlushRequest).Generation == generation &&
+//@       result.Req.(*kvrpcpb.FlushRequest).StartTs == c.startTS
+
+//@ func (actionPipelinedFlush) handleSingleBatch
+//@   prop C16
+//@   may-panic
+//@   opaque-callee NewRegionRequestSender MayBackoffForRegionError relocate doActionOnMutations ExtractKeyErr GetStoreAddr FormatUint String resolveLocks RecordResolvingLocks UpdateResolvingLocks ResolveLocksDone ResolveLocksWithOpts extractKeyExistsErr NewLock GetCtx Logger
+//@   at call(SendReq) assert request: arg_req == req && arg_regionID == batch.region && req.Type == tikvrpc.CmdFlush && req.Req.(*kvrpcpb.FlushRequest).Generation == action.generation &&
+//@       req.Req.(*kvrpcpb.FlushRequest).StartTs == c.startTS
+//@   at call(doActionOnMutations) assert samegen: arg_action.(actionPipelinedFlush).generation == action.generation && arg_mutations == batch.mutations
+//@   loop 1 invariant req: req != nil && req.Type == tikvrpc.CmdFlush && req.Req.(*kvrpcpb.FlushRequest).Generation == action.generation && req.Req.(*kvrpcpb.FlushRequest).StartTs == c.startTS
+
+//@ func (*twoPhaseCommitter) pipelinedFlushMutations
+//@   prop C16
+//@   opaque-callee doActionOnMutations SpanFromContext Tracer StartSpan ChildOf Context Finish SetCtx GetCtx ContextWithSpan
+//@   at call(doActionOnMutations) assert gen: arg_action.(actionPipelinedFlush).generation == generation && arg_mutations == mutations
+
 // Commit of a pipelined transaction: the primary alone is committed first; only after that succeeded (committed is set)
 // is the tracked range of flushed keys resolved - with the commit outcome and the very bounds the flushes recorded.
 // The background resolution runs under the store's context, not the caller's (which is usually cancelled right after
@@ -463,10 +488,20 @@ package transaction
 // ---- C04: every commit timestamp exceeds the start timestamp ------------------------------------------------------------
 // The two-phase commit proper (commitTxn) and the background commit of an async-commit transaction are started only
 // with a commit timestamp above the transaction's start timestamp - whatever the oracle or the stores answered.
+// Ghost: maxTSCalc - calculateMaxCommitTS has succeeded for this committer. Whenever the prewrite may decide the commit
+// timestamp - async commit AND one-phase commit alike - the maximum commit timestamp is calculated (and, where
+// linearizability or a commit-wait bound asks for it, a fresh timestamp fetched) BEFORE the prewrite is sent.
+//@ ghost field twoPhaseCommitter.maxTSCalc bool
+//@ func (*twoPhaseCommitter) calculateMaxCommitTS
+//@   trusted
+//@   modifies-also twoPhaseCommitter.maxTSCalc of c
+//@   ensures result == nil ==> c.maxTSCalc
+
 //@ func (*twoPhaseCommitter) execute
 //@   prop C04
 //@   may-panic
-//@   opaque-callee cleanup prewriteMutations checkSchemaOnAssertionFail stripNoNeedCommitKeys GetTimestampForCommit checkSchemaValid fillCommitTSLagDetails commitFlushedMutations checkOnePC checkAsyncCommit calculateMaxCommitTS needLinearizability getDetail pipelinedCancel primary shouldWriteBinlog spawn NewBackofferWithVars IsExpired GetOracle GetTimestampWithRetry updateMaxCommitTs getTimestampWithRetry GetMemBuffer Prewrite Skipped GetError
+//@   at call(prewriteMutations) assert calculated: old(c.useAsyncCommit == 0 && c.useOnePC == 0) && (c.useAsyncCommit > 0 || c.useOnePC > 0) ==> c.maxTSCalc
+//@   opaque-callee cleanup prewriteMutations checkSchemaOnAssertionFail stripNoNeedCommitKeys GetTimestampForCommit checkSchemaValid fillCommitTSLagDetails commitFlushedMutations checkOnePC checkAsyncCommit needLinearizability getDetail pipelinedCancel primary shouldWriteBinlog spawn NewBackofferWithVars IsExpired GetOracle GetTimestampWithRetry updateMaxCommitTs getTimestampWithRetry GetMemBuffer Prewrite Skipped GetError
 //@   at call(commitTxn) assert above: c.commitTS > c.startTS
 //@   at call(spawn) assert aboveasync: c.commitTS > c.startTS
 
@@ -561,3 +596,11 @@ package transaction
 //@   prop C06
 //@   may-panic
 //@   ensures started: !c.store.IsClose() ==> c.txn.spawned == old(c.txn.spawned) + 1
+
+// Commit stops the heart-beat manager of its committer on every way out once the committer exists - also when it ends
+// before the two-phase commit starts (key collection failed, nothing to commit): no heart-beat after the transaction ended.
+//@ func (*KVTxn) Commit
+//@   prop C04
+//@   may-panic
+//@   opaque-callee initKeysAndMutations execute asyncPessimisticRollback onCommitted Lock UnLock TxnLatches newTwoPhaseCommitter SetDiskFullOpt SetTxnSource getDetail GetKeys Len IsStale SetCommitTS StartRegion End SpanFromContext WithRPCInterceptor close$1 CancelAggressiveLocking isInternal
+//@   at return assert stopped: defined(committer) && committer != nil && committer == txn.committer ==> committer.ttlManager.state != stateRunning
